@@ -307,14 +307,14 @@ func checkNumberDFA(c *Ctx, u *Universe) {
 
 // ---------- exponent marker rewriting (siblings)
 
-func checkNum2Float(c *Ctx, u *Universe) {
+func checkNum2Float(c *Ctx, u *Universe, rule string) {
 	R := c.R
 	sites := []struct{ rel, fn string }{{"pkg/exec", "parseIDNumberToFloat64"}, {"pkg/value", "strExecAtoi"}}
 	for _, s := range sites {
 		fd, p := u.funcDecl(s.rel, s.fn)
 		key := s.rel + "." + s.fn
 		if fd == nil {
-			R.lost("C04.num2float", key)
+			R.lost(rule, key)
 			continue
 		}
 		pairs := map[string]string{}
@@ -341,11 +341,28 @@ func checkNum2Float(c *Ctx, u *Universe) {
 			return true
 		})
 		ok := pairs["*^"] == "e" && pairs["*10^"] == "e" && parseFloat
-		R.check(ok, "C04.num2float", key, u.pos(fd.Pos()),
+		// no returned / produced number comes from integer parsing (not correctly rounded above 2^53, clamps on overflow)
+		if f := u.ssaFunc(s.rel, s.fn); f != nil {
+			bad := ""
+			for _, in := range instrsOf(f) {
+				switch x := in.(type) {
+				case *ssa.Call:
+					if n := u.callName(x); n == "strconv.ParseInt" || n == "strconv.Atoi" || n == "strconv.ParseUint" {
+						bad = n + " at " + u.pos(x.Pos())
+					}
+				case *ssa.Convert:
+					if bt, isB := x.X.Type().Underlying().(*types.Basic); isB && bt.Info()&types.IsInteger != 0 && isFloat(x.Type()) {
+						bad = "integer to float conversion at " + u.pos(x.Pos())
+					}
+				}
+			}
+			R.check(bad == "", rule, key+":no-integer-path", u.pos(fd.Pos()), "the number's value comes from strconv.ParseFloat on every path (no integer parsing / conversion)", "a numeric literal is converted through an integer ("+bad+"): digits beyond 2^53 or the int64 range do not give the correctly rounded double")
+		}
+		R.check(ok, rule, key, u.pos(fd.Pos()),
 			"both exponent markers *^ and *10^ are rewritten to e before strconv.ParseFloat (correct rounding delegated to strconv)",
 			fmt.Sprintf("exponent markers are not both rewritten to 'e' before ParseFloat (found rewrites %v, ParseFloat=%v)", pairs, parseFloat))
 	}
-	R.min("C04.num2float", 2)
+	R.min(rule, 2)
 	// NewNumberFromString rewrites *^ to "" - only a note while it has no caller
 	if fd, p := u.funcDecl("pkg/value", "NewNumberFromString"); fd != nil {
 		obj := p.TypesInfo.Defs[fd.Name]
@@ -359,7 +376,7 @@ func checkNum2Float(c *Ctx, u *Universe) {
 			}
 		}
 		if used {
-			R.viol("C04.num2float", "pkg/value.NewNumberFromString", u.pos(fd.Pos()), "rewrites *^ to the empty string (1*^3 would read as 13) and is now referenced by non-test code")
+			R.viol(rule, "pkg/value.NewNumberFromString", u.pos(fd.Pos()), "rewrites *^ to the empty string (1*^3 would read as 13) and is now referenced by non-test code")
 		} else {
 			R.note("pkg/value.NewNumberFromString rewrites *^ to \"\" but has no caller in non-test code (dead); not a finding")
 		}
@@ -403,18 +420,26 @@ func checkKeywordTrie(c *Ctx, u *Universe) {
 		R.undecided("C04.trie", "pkg/syntax/zh.parseKeyword", u.pos(fd.Pos()), "wordLen / moveForward not found")
 		return
 	}
+	var runFrom func(text []rune, symFrom int) ([]Outcome, *PE)
 	run := func(text []rune, symbolic bool) ([]Outcome, *PE) {
+		if symbolic {
+			return runFrom(text, 1)
+		}
+		return runFrom(text, -1)
+	}
+	// positions >= symFrom are symbolic (symFrom < 0: everything concrete, 0 beyond the text)
+	runFrom = func(text []rune, symFrom int) ([]Outcome, *PE) {
 		pe := newPE(u, info, fd)
 		pe.oracle = func(pe *PE, st *peState, call *ast.CallExpr, id string) (Val, bool) {
 			at := func(i int) Val {
-				if !symbolic {
+				if symFrom < 0 {
 					if i < len(text) {
 						return intVal(int64(text[i]))
 					}
 					return intVal(0)
 				}
-				if i == 0 {
-					return intVal(int64(text[0]))
+				if i < symFrom && i < len(text) {
+					return intVal(int64(text[i]))
 				}
 				return Val{K: vSym, Sym: fmt.Sprintf("p%d", i)}
 			}
@@ -514,6 +539,45 @@ func checkKeywordTrie(c *Ctx, u *Universe) {
 					fmt.Sprintf("the lexer cuts %q (token %v, length %d) out of text as a keyword, which the manual's keyword table does not list", word, typeNames[t], wl))
 			}
 		}
+	}
+	// (c) a keyword is recognised whatever follows it (greedy cut, context-free): with the following characters
+	// symbolic every path yields the keyword itself or a longer documented keyword that extends it
+	for _, k := range ref {
+		kr := []rune(k.Text)
+		outs, pe := runFrom(kr, len(kr))
+		key := "keyword " + k.Text + ":any-context"
+		if pe.failed != "" {
+			R.undecided("C04.trie", key, u.pos(fd.Pos()), pe.failed)
+			continue
+		}
+		bad := ""
+		for _, o := range outs {
+			m, t, wl, _, ok := result(o)
+			if !ok {
+				bad = "result not constant on a path"
+				break
+			}
+			if !m {
+				bad = "not recognised when followed by " + joinAssumed(o.St) + constraintText(o.St)
+				break
+			}
+			seq := append([]rune{}, kr...)
+			complete := true
+			for i := int64(len(kr)); i < wl; i++ {
+				cs := o.St.cons[fmt.Sprintf("p%d", i)]
+				if cs == nil || cs.eq == nil {
+					complete = false
+					break
+				}
+				seq = append(seq, rune(*cs.eq))
+			}
+			wantType, known := refSet[string(seq)]
+			if wl < int64(len(kr)) || !complete || !known || typeConsts[wantType] != t {
+				bad = fmt.Sprintf("yields token %v of length %d when followed by%s", typeNames[t], wl, constraintText(o.St))
+				break
+			}
+		}
+		R.check(bad == "", "C04.trie", key, u.pos(fd.Pos()), "recognised (or extended to a longer keyword) whatever characters follow", "keyword "+k.Text+" is "+bad)
 	}
 	// a non-glyph character is never a keyword
 	outs, pe := run([]rune{'x'}, true)
@@ -1027,7 +1091,7 @@ func checkC04(c *Ctx) {
 		"greedily with its token type and full length and nothing else is a keyword (decision tree of parseKeyword enumerated over all glyph constants); (C04.order) NextToken's " +
 		"dispatch order comment>string>backtick>punctuation>operator>keyword>identifier (reachability + dominance on SSA); (C04.op) operator table incl. the contextual rule for + - * /; " +
 		"(C04.ident) identifier scanning stops on white space / keyword start / terminators and backtick identifiers do no keyword extraction; (C04.range) idRange is sorted, disjoint, within 0..0xFFFF " +
-		"and IdInRange answers true only between a table entry's bounds. NOT decided: correct rounding of the double (delegated to strconv.ParseFloat), token positions, termination of the binary search (C05)."
+		"and IdInRange answers true only between a table entry's bounds. Also: every keyword is recognised whatever characters follow it (look-ahead positions symbolic; only a longer documented keyword may take over), and numeric literals never pass through integer parsing. NOT decided: correct rounding of the double (delegated to strconv.ParseFloat), token positions, termination of the binary search (C05)."
 	R.Assumptions = []string{
 		"strconv.ParseFloat rounds correctly",
 		"reference tables /verif/tables/keywords.json and operators.json transcribe manual ch.1/ch.5 (reviewed by hand)",
@@ -1035,11 +1099,32 @@ func checkC04(c *Ctx) {
 	}
 	u := c.Core()
 	checkNumberDFA(c, u)
-	checkNum2Float(c, u)
+	checkNum2Float(c, u, "C04.num2float")
 	checkKeywordTrie(c, u)
 	checkDispatchOrder(c, u)
 	checkOperators(c, u)
 	checkIdentifierScan(c, u)
 	checkIDRange(c, u)
 	R.Exhaustive = true
+}
+
+// constraintText renders what a path assumed about the symbolic look-ahead characters
+func constraintText(st *peState) string {
+	var parts []string
+	for _, k := range sortedConsKeys(st.cons) {
+		c := st.cons[k]
+		if c.eq != nil {
+			parts = append(parts, fmt.Sprintf(" %s=%q", k, rune(*c.eq)))
+		}
+	}
+	return strings.Join(parts, "")
+}
+
+func sortedConsKeys(m map[string]*symCons) []string {
+	var ks []string
+	for k := range m {
+		ks = append(ks, k)
+	}
+	sort.Strings(ks)
+	return ks
 }
